@@ -1,0 +1,10 @@
+//! Verification hooks. Only compiled with the `verif-hooks` feature.
+//!
+//! Everything in here is additive: it re-exports crate-private items or exposes read-only views
+//! so that an external test harness can observe the implementation.
+
+/// Re-export of the crate-private allocator interface so a harness can instantiate the
+/// collections with a fault-injecting / counting allocator.
+pub mod alloc {
+    pub use crate::alloc::{AllocError, AllocProxy, Allocator, CaoLangAllocator, SysAllocator};
+}
